@@ -102,6 +102,9 @@ def main():
             log.append([kind, a.v, b.v, sticky])
             if sweep_at is not None and len(log) - 1 == sweep_at:
                 jar.cache.minimize()
+                # ... and an explicit request to every node: a node that is in use (pinned) must refuse it
+                for n_ in list(nodes.values()):
+                    n_._p_deactivate()
         keys.HOOK[0] = hook
         try:
             res = call(t, op, k)
